@@ -21,11 +21,11 @@ RULE = (
     "first, then the intended one - so the verdict must follow the rule registered last. combo: combo_check over lists of 1-3 x 1-2 positional values and 1-3 x "
     "1-2 keyword values of a two-argument primitive whose VJP or JVP rule is wrong (factor 1.1 or sign) for exactly one drawn combination "
     "(or none), 20 trials, same binomial decision: every listed combination must actually be checked."
-    ' Families skew (antisymmetric linear map) and reduce (reductions with unreduced tangents); Python-int points (refusal allowed, acceptance of a wrong rule is not).'
+    ' Families skew (antisymmetric linear map), reduce (reductions with unreduced tangents), masked (structural zeros in the derivative; a rule that forgets the mask) and leaves4 (a four-leaf tuple argument or result whose last leaf comes back with shape (1, n)); Python-int points (refusal allowed, acceptance of a wrong rule is not).'
 )
 
-FAMILIES = ["elementwise", "matmul", "broadcast", "complex", "container", "scalar", "dict_complex", "skew", "reduce"]
-DEFECTS = ["none", "factor", "sign", "transpose", "missing_reduction", "missing_conj", "drop_imag", "one_entry", "second_order_only"]
+FAMILIES = ["elementwise", "matmul", "broadcast", "complex", "container", "scalar", "dict_complex", "skew", "reduce", "masked", "leaves4"]
+DEFECTS = ["none", "factor", "sign", "transpose", "missing_reduction", "missing_conj", "drop_imag", "one_entry", "second_order_only", "missing_mask", "keepdims_leaf"]
 
 
 def binom_tail(n, m, p=0.01):
@@ -131,6 +131,76 @@ def build(family, shape, defect, eps, where, vseed, rereg=False):
         defvjp(f, vjp)
         defjvp(f, jvp)
         return f, x0
+    if family == "masked":
+        # a function whose derivative has structural zeros (the strict lower triangle of the result does not depend on the argument): a rule
+        # that forgets the mask is wrong ONLY where the true derivative is zero - invisible to a checker that projects on the true derivative
+        n = max(2, shape[0] if shape else 3)
+        (W, x0), _ = values.generic(vseed, [(n, n), (n, n)], 0.4, 1.2)
+
+        @primitive
+        def f(X):
+            return onp.triu(onp.sin(X) * W)
+
+        def vjp(ans, X):
+            def r(g):
+                if dv == "missing_mask":
+                    return g * anp.cos(X) * W
+                return apply_defect(dv, anp.triu(g) * anp.cos(X) * W)
+            return r
+
+        def jvp(g, ans, X):
+            if dj == "missing_mask":
+                return g * anp.cos(X) * W
+            return apply_defect(dj, anp.triu(g * anp.cos(X) * W))
+
+        defvjp(f, vjp)
+        defjvp(f, jvp)
+        return f, x0
+    if family == "leaves4":
+        # containers with four array leaves, handed over whole: a tuple ARGUMENT (defect in the reverse rule) or a tuple RESULT (defect in
+        # the forward rule).  keepdims_leaf: the LAST leaf comes back with shape (1, n) instead of (n,) - same size, another space
+        n = max(2, shape[0] if shape else 3)
+        (a0, b0, c0, d0), _ = values.generic(vseed, [(n,), (n,), (n,), (n,)], 0.4, 1.2)
+        if where == "vjp":
+            @primitive
+            def f(t):
+                a, b, cc_, d = t
+                return onp.sin(a) * b + cc_ * d
+
+            def vjp(ans, t):
+                a, b, cc_, d = t
+
+                def r(g):
+                    last = g * cc_
+                    if dv == "keepdims_leaf":
+                        last = anp.reshape(last, (1, n))
+                    return ab_tuple((apply_defect(dv, g * anp.cos(a) * b), g * anp.sin(a), g * d, last))
+                return r
+
+            def jvp(g, ans, t):
+                a, b, cc_, d = t
+                return g[0] * anp.cos(a) * b + g[1] * anp.sin(a) + g[2] * d + g[3] * cc_
+
+            defvjp(f, vjp)
+            defjvp(f, jvp)
+            return f, (a0, b0, c0, d0)
+
+        @primitive
+        def f(x):
+            return (onp.sin(x) * b0, onp.cos(x), x * x, c0 * x)
+
+        def vjp(ans, x):
+            return lambda g: g[0] * anp.cos(x) * b0 - g[1] * anp.sin(x) + g[2] * 2 * x + g[3] * c0
+
+        def jvp(g, ans, x):
+            last = g * c0
+            if dj == "keepdims_leaf":
+                last = anp.reshape(last, (1, n))
+            return ab_tuple((apply_defect(dj, g * anp.cos(x) * b0), -g * anp.sin(x), g * 2 * x, last))
+
+        defvjp(f, vjp)
+        defjvp(f, jvp)
+        return f, a0
     if family == "skew":
         # a linear map with an antisymmetric matrix on vectors (input and output live in the SAME space): a transposed Jacobian or a flipped
         # sign is then a purely antisymmetric error - invisible to a checker that pairs J v with v itself
@@ -288,6 +358,14 @@ def build(family, shape, defect, eps, where, vseed, rereg=False):
 
 
 def applicable(family, defect, where, order):
+    if defect == "missing_mask":
+        return family == "masked"
+    if defect == "keepdims_leaf":
+        return family == "leaves4"
+    if family == "masked":
+        return defect in ("factor", "sign", "one_entry")
+    if family == "leaves4":
+        return defect in ("factor", "sign")
     if defect == "transpose":
         return family in ("matmul", "skew")
     if family == "skew":
@@ -317,7 +395,7 @@ def cell_body(trials, c):
     defect = cands[c.int(0, len(cands) - 1)] if c.chance(4, 5) else "none"
     eps = c.choice([3e-3, 1e-2, 1e-1, -1e-2])
     modes_req = c.choice(["default", "rev", "fwd"])
-    shape = c.choice([(), (3,), (3, 2), (4, 4)]) if family not in ("matmul", "skew") else c.choice([(2,), (3,), (4,)])
+    shape = c.choice([(), (3,), (3, 2), (4, 4)]) if family not in ("matmul", "skew", "masked", "leaves4") else c.choice([(2,), (3,), (4,)])
     if family in ("broadcast", "reduce"):
         shape = c.choice([(2,), (4,)])
     if not applicable(family, defect, where, order):
@@ -386,7 +464,7 @@ def cell_body(trials, c):
         if rejected:
             return fail("false_rejection", f"check_grads rejected a correct primitive in {rejected}/{trials} trials: {first_err or other_exc}",
                         f"C18|false_rejection|{family}", sample=sample)
-        return ok(nontrivial=family in ("complex", "container", "dict_complex") or order == 2, key=cell, labels=labels, sample=sample)
+        return ok(nontrivial=family in ("complex", "container", "dict_complex", "leaves4") or order == 2, key=cell, labels=labels, sample=sample)
     misses = trials - rejected
     tail = binom_tail(trials, misses) if misses else 1.0
     sample["misses"] = misses
